@@ -1780,6 +1780,24 @@ func readNextCommand(packet []byte, argsIn [][]byte, msg *Message, wr io.Writer)
 	return redcon.ReadNextCommand(packet, args)
 }
 
+var errInvalidRequest = errors.New("Protocol error: invalid request")
+
+// safeReadNextCommand is readNextCommand with a malformed request turned into a
+// protocol error. A length field such as "$-100" makes the framing parser
+// index out of range; without the recover that panic, raised on a connection
+// goroutine, takes the whole server down.
+func safeReadNextCommand(packet []byte, argsIn [][]byte, msg *Message, wr io.Writer) (
+	complete bool, args [][]byte, kind redcon.Kind, leftover []byte, err error,
+) {
+	defer func() {
+		if r := recover(); r != nil {
+			complete, args, kind, leftover = false, argsIn[:0], redcon.Redis, packet
+			err = errInvalidRequest
+		}
+	}()
+	return readNextCommand(packet, argsIn, msg, wr)
+}
+
 // ReadMessages ...
 func (rd *PipelineReader) ReadMessages() ([]*Message, error) {
 	var msgs []*Message
@@ -1799,7 +1817,7 @@ moreData:
 	for len(data) > 0 {
 		msg := &Message{}
 		complete, args, kind, leftover, err2 :=
-			readNextCommand(data, nil, msg, rd.wr)
+			safeReadNextCommand(data, nil, msg, rd.wr)
 		if err2 != nil {
 			err = err2
 			break
